@@ -195,6 +195,13 @@ func cmdVerify(args []string) {
 // <text> (robust against renumbering when unrelated code is added).
 func unclaimedReason(ct *Contract, name string, text ...string) (string, bool) {
 	for suf, reason := range ct.Unclaimed {
+		if strings.HasSuffix(suf, "@") {
+			// `unclaimed index@ <reason>`: the safety obligations of that kind inside inlined callees (".../index@Callee#3")
+			if strings.Contains(name, "/"+suf) {
+				return reason, true
+			}
+			continue
+		}
 		if i := strings.Index(suf, "@"); i > 0 {
 			kind, want := suf[:i], suf[i+1:]
 			if strings.Contains(name, "/"+kind+"#") && len(text) > 0 && strings.Contains(strings.ReplaceAll(text[0], " ", ""), want) {
